@@ -19,6 +19,15 @@ CHECKS = {
             "Every allocate/deallocate/reallocate of instrumented allocators is checked online; outstanding blocks at the end of each history."),
     "C07": ("exploration", "5 C07", "runtime monitoring: capacity/address shadow + per-object event stamps over generated histories",
             "capacity(), data(), element addresses and identities are compared before/after every call."),
+    "C03": ("exploration", "5 C03", "differential runtime monitoring: random FlatSet histories vs std::set model, comparator provenance, under ASan/UBSan",
+            "Every call of generated histories over pools of FlatSets (comparators less/greater/coarse/stateful/transparent x underlying amc::vector/"
+            "SmallVector/FixedCapacityVector/std::vector x element category) is compared with std::set built with the same comparator object."),
+    "C04": ("exploration", "5 C04", "runtime monitoring: complete small-scope state-space execution of the real SmallSet + random histories vs std::set model",
+            "Breadth-first execution of every operation from every reachable (content,state) of SmallSets with N<=3 over 5 keys, every ordered state pair under "
+            "swap/compare/merge, and random histories for N in {4,8}; exhaustive inside the small scope, a sample beyond."),
+    "C11": ("exploration", "5 C11", "runtime monitoring: iterator-validity oracle (fresh walk) over the complete small-scope SmallSet state space + random histories",
+            "Every iterator returned by the library is classified against a fresh begin()..end() walk before being dereferenced; walks and erase loops are "
+            "capped by logical step counts."),
 }
 
 NA_REASON = "check not built yet in this session (engine under construction, see DESIGN.md section 5)"
